@@ -377,15 +377,25 @@ func (c *Cluster) pushPingMetrics(ctx context.Context) {
 	ctx, span := trace.StartSpan(ctx, "cluster/pushPingMetrics")
 	defer span.End()
 
-	ticker := time.NewTicker(c.config.MonitorPingInterval)
-	for {
-		c.sendPingMetric(ctx)
+	interval := c.config.MonitorPingInterval
+	timer := time.NewTimer(0) // fire immediately first
 
+	for {
 		select {
 		case <-ctx.Done():
 			return
-		case <-ticker.C:
+		case <-timer.C:
 		}
+
+		_, err := c.sendPingMetric(ctx)
+		if err != nil {
+			// Pings expire after two intervals: retry sooner so
+			// that the last one received by others does not
+			// expire because a single publish failed.
+			timer.Reset(interval / 2)
+			continue
+		}
+		timer.Reset(interval)
 	}
 }
 
